@@ -285,9 +285,14 @@ impl<S: Read> Master<S> {
         {
             process = verif::wrap("limiter", process);
         }
-        for sorter in &self.cli.sort_by {
+        for (index, sorter) in self.cli.sort_by.iter().enumerate() {
             let sorter = Sorter::from_str(sorter)?;
-            let max_size = self.cli.take.map(|take| (self.cli.skip + take) as usize);
+            // only the most significant key (the last to sort) may drop rows beyond skip + take
+            let max_size = if index == 0 {
+                self.cli.take.map(|take| (self.cli.skip + take) as usize)
+            } else {
+                None
+            };
             process = sorter.create_processor(process, max_size);
             #[cfg(feature = "verif-hooks")]
             {
